@@ -175,8 +175,152 @@ let cmd_sym line =
         | _ -> None in
       "{\"results\":[" ^ String.concat "," (List.filter_map q secs) ^ "]}"
 
+(* ---------------------------------------------------------------------------------------------
+   oix: the outline-relevant slice of the indexer (OutlineIndex.v) on the typed AST printed by harness `coreast`.
+   Input line: the "ast" s-expression of one workspace.  Output: one JSON object
+     {"bad": bool, "ops": ["AR 65 C 0 6 7 1 0", ...], "outline": [<per file number: outline | null | {"panic":..}>]}
+   (ops in the token form of lib/outlib.encode_op).  The s-expression reader is the one of scope_driver.ml. *)
+type sx = A of ostring | L of sx list
+
+let parse_sexp (s : ostring) : sx =
+  let n = String.length s in
+  let pos = ref 0 in
+  let rec skip () = if !pos < n && (s.[!pos] = ' ' || s.[!pos] = '\n' || s.[!pos] = '\t') then (incr pos; skip ()) in
+  let rec one () : sx =
+    skip ();
+    if !pos >= n then failwith "sexp: eof";
+    if s.[!pos] = '(' then begin
+      incr pos;
+      let items = ref [] in
+      let rec loop () =
+        skip ();
+        if !pos >= n then failwith "sexp: unclosed";
+        if s.[!pos] = ')' then incr pos
+        else (items := one () :: !items; loop ()) in
+      loop ();
+      L (List.rev !items)
+    end else begin
+      let st = !pos in
+      while !pos < n && s.[!pos] <> ' ' && s.[!pos] <> '(' && s.[!pos] <> ')' do incr pos done;
+      A (String.sub s st (!pos - st))
+    end in
+  one ()
+
+let num = function A a -> n_of_int (int_of_string a) | _ -> failwith "num"
+let rng3 f lo hi = { r_file = num f; r_lo = num lo; r_hi = num hi }
+let ident = function
+  | L (A "id" :: f :: lo :: hi :: cps) -> { i_rng = rng3 f lo hi; i_name = List.map num cps }
+  | _ -> failwith "ident"
+let name_of = function L (A "n" :: cps) -> List.map num cps | _ -> failwith "name"
+let rec typ = function
+  | L [A "bit"] -> TyBit | L [A "int"] -> TyInt | L [A "string"] -> TyString | L [A "code"] -> TyCode
+  | L [A "dag"] -> TyDag
+  | L [A "bits"; k] -> TyBits (num k)
+  | L [A "list"; t] -> TyList (typ t)
+  | L [A "class"; i] -> TyClass (ident i)
+  | _ -> failwith "typ"
+(* values only matter through the first identifier of a def name: everything else is read structurally *)
+let rec value = function
+  | L (A "val" :: f :: lo :: hi :: inners) -> Val (rng3 f lo hi, List.map inner inners)
+  | _ -> failwith "value"
+and inner = function
+  | L (A "in" :: sv :: _sufs) -> Inner (simple sv, [])
+  | _ -> failwith "inner"
+and simple = function
+  | L (A "id" :: _) as i -> SId (ident i)
+  | _ -> SUninit
+let opt_value = function
+  | L [A "some"; v] -> Some (value v) | L [A "none"] -> None | _ -> failwith "opt value"
+let targs = function
+  | L [A "none"] -> None
+  | L [A "some"; L (A "targs" :: l)] ->
+    Some (List.map (function L [A "ta"; t; i; d] -> TArg (typ t, ident i, opt_value d) | _ -> failwith "ta") l)
+  | _ -> failwith "targs"
+let parents = function
+  | L (A "parents" :: l) ->
+    List.map (function L [A "cr"; i; _a; f; lo; hi] -> CRef (ident i, [], rng3 f lo hi) | _ -> failwith "cr") l
+  | _ -> failwith "parents"
+let dummy_value = Val ({ r_file = N0; r_lo = N0; r_hi = N0 }, [])
+let item = function
+  | L [A "field"; t; i; _v] -> IField (typ t, ident i, None)
+  | L [A "let"; i; _v] -> ILet (ident i, dummy_value)
+  | L [A "defvar"; i; _v] -> IDefvar (ident i, dummy_value)
+  | L [A "assert"; _c; _m] -> IAssert (dummy_value, dummy_value)
+  | L [A "dump"; _v] -> IDump dummy_value
+  | _ -> failwith "item"
+let body = function L (A "body" :: l) -> List.map item l | _ -> failwith "body"
+let rec stmts = function L (A "stmts" :: l) -> List.map stmt l | _ -> failwith "stmts"
+and stmt = function
+  | L [A "include"; f; lo; hi; t] ->
+    SInclude (rng3 f lo hi, (match t with L [A "some"; k] -> Some (num k) | _ -> None))
+  | L [A "assert"; _c; _m] -> SAssert (dummy_value, dummy_value)
+  | L [A "class"; i; ta; ps; b] -> SClass (ident i, targs ta, parents ps, body b)
+  | L [A "def"; nm; f; lo; hi; ps; b] -> SDef (opt_value nm, rng3 f lo hi, parents ps, body b)
+  | L [A "defm"; nm; f; lo; hi; _ps] -> SDefm (opt_value nm, rng3 f lo hi, [])
+  | L [A "defset"; t; i; b] -> SDefset (typ t, ident i, stmts b)
+  | L [A "defvar"; i; _v] -> SDefvar (ident i, dummy_value)
+  | L [A "dump"; _v] -> SDump dummy_value
+  | L [A "foreach"; i; _init; b] -> SForeach (ident i, FeRange, stmts b)
+  | L [A "if"; _c; th; el] ->
+    SIf (dummy_value, stmts th, (match el with L [A "some"; e] -> Some (stmts e) | _ -> None))
+  | L [A "let"; _vs; b] -> SLet ([], stmts b)
+  | L [A "multiclass"; i; ta; _ps; b] -> SMulticlass (ident i, targs ta, [], stmts b)
+  | _ -> failwith "stmt"
+let workspace_of (sexp : sx) : workspace =
+  match sexp with
+  | L (A "ws" :: fs) ->
+    { ws_files = List.map (function L [A "file"; s] -> stmts s | _ -> failwith "file") fs; ws_perrs = [] }
+  | _ -> failwith "ws"
+
+let tok_name (nm : n list) : ostring =
+  if nm = [] then "-" else String.concat "," (List.map (fun c -> string_of_int (int_of_n c)) nm)
+let i_ x = string_of_int (int_of_n x)
+let frs r = Printf.sprintf "%s %s %s" (i_ r.fr_file) (i_ r.fr_lo) (i_ r.fr_hi)
+let b_ x = if x then "1" else "0"
+let kind_tok = function
+  | KRecord -> "record" | KTemplateArg -> "template_arg" | KRecordField -> "record_field" | KVariable -> "variable"
+  | KDefset -> "defset" | KMulticlass -> "multiclass" | KDefm -> "defm"
+let op_string (o : op) : ostring =
+  match o with
+  | OpAddRecord (nm, k, loc, g, id) ->
+      Printf.sprintf "AR %s %s %s %s %s" (tok_name nm) (match k with RKClass -> "C" | RKDef -> "D") (frs loc) (b_ g) (i_ id)
+  | OpAddAnonymousDef (nm, loc, id) -> Printf.sprintf "AAD %s %s %s" (tok_name nm) (frs loc) (i_ id)
+  | OpAddTemplateArg (nm, ty, loc, id) -> Printf.sprintf "ATA %s %s %s %s" (tok_name nm) (tok_name ty) (frs loc) (i_ id)
+  | OpAddRecordField (nm, ty, loc, par, id) ->
+      Printf.sprintf "ARF %s %s %s %s %s" (tok_name nm) (tok_name ty) (frs loc) (i_ par) (i_ id)
+  | OpAddVariable (nm, ty, loc, id) -> Printf.sprintf "AV %s %s %s %s" (tok_name nm) (tok_name ty) (frs loc) (i_ id)
+  | OpAddDefset (nm, ty, loc, id) -> Printf.sprintf "ADS %s %s %s %s" (tok_name nm) (tok_name ty) (frs loc) (i_ id)
+  | OpAddMulticlass (nm, loc, id) -> Printf.sprintf "AMC %s %s %s" (tok_name nm) (frs loc) (i_ id)
+  | OpAddDefm (nm, loc, g, id) -> Printf.sprintf "ADM %s %s %s %s" (tok_name nm) (frs loc) (b_ g) (i_ id)
+  | OpAddAnonymousDefm (nm, loc, id) -> Printf.sprintf "AADM %s %s %s" (tok_name nm) (frs loc) (i_ id)
+  | OpAddReference ((k, idx), loc) -> Printf.sprintf "REF %s %s %s" (kind_tok k) (i_ idx) (frs loc)
+  | OpRecordMut id -> "RM " ^ i_ id | OpDefsetMut id -> "DSM " ^ i_ id
+  | OpMulticlassMut id -> "MCM " ^ i_ id | OpDefmMut id -> "DMM " ^ i_ id
+  | OpRecAddTemplateArg (nm, id) -> Printf.sprintf "RTA %s %s" (tok_name nm) (i_ id)
+  | OpRecAddField (nm, id) -> Printf.sprintf "RF %s %s" (tok_name nm) (i_ id)
+  | OpRecAddParent id -> "RP " ^ i_ id
+  | OpDefsetAddDef id -> "DAD " ^ i_ id
+  | OpMcAddTemplateArg (nm, id) -> Printf.sprintf "MTA %s %s" (tok_name nm) (i_ id)
+  | OpMcAddParent id -> "MP " ^ i_ id
+  | OpDefmAddParent id -> "DMP " ^ i_ id
+  | OpError loc -> "ERR " ^ frs loc
+
+let cmd_oix line =
+  let w = workspace_of (parse_sexp line) in
+  let st = oix w in
+  let nfiles = List.length w.ws_files in
+  let outl = List.init nfiles (fun k ->
+    match outline_of_ws w (n_of_int k) with
+    | SErr e -> "{\"panic\":\"" ^ err_string e ^ "\"}"
+    | SOk None -> "null"
+    | SOk (Some l) -> "[" ^ String.concat "," (List.map jdocsym l) ^ "]") in
+  Printf.sprintf "{\"bad\":%s,\"ops\":[%s],\"outline\":[%s]}" (if st.oi_bad then "true" else "false")
+    (String.concat "," (List.map (fun o -> "\"" ^ op_string o ^ "\"") (oix_ops w)))
+    (String.concat "," outl)
+
 let () =
   match Sys.argv with
+  | [| _; "oix" |] -> each_line cmd_oix
   | [| _; "sym" |] -> each_line cmd_sym
   | [| _; "fold" |] -> each_line cmd_fold
   | [| _; "doc" |] -> each_line (cmd_doc_with extract_doc_comments)
